@@ -59,11 +59,21 @@ class ModInfo:
             elif isinstance(s, ast.Assign):
                 self._assign(s)
             elif isinstance(s, ast.Import):
-                for a in s.names:
-                    self.imports[a.asname or a.name.split('.')[0]] = \
-                        ('lib', a.name if a.asname else a.name.split('.')[0])
+                self._import(s)
             elif isinstance(s, ast.ImportFrom):
                 self._importfrom(s)
+            elif isinstance(s, ast.Try):
+                # optional dependency: try: import X / except ImportError: X = None
+                for t in s.body:
+                    if isinstance(t, ast.Import):
+                        self._import(t)
+                    elif isinstance(t, ast.ImportFrom):
+                        self._importfrom(t)
+
+    def _import(self, s):
+        for a in s.names:
+            self.imports[a.asname or a.name.split('.')[0]] = \
+                ('lib', a.name if a.asname else a.name.split('.')[0])
 
     def _assign(self, s):
         try:
